@@ -425,24 +425,37 @@ theorem capture_repaired_shapes :
     ∧ (1 : Capture.Name) ∈ freeVars [] erasedBody ∧ (1 : Capture.Name) ∈ accessed [] erasedBody := by
   refine ⟨by decide, by decide, rfl, rfl, by decide, by decide⟩
 
-/-- **capture_complete_partial.** For every parameter list and every body whose lines are
-expressions built from literals, variables, `+ - <`, parentheses, inline `if … then … else …` and
-calls `f(args)`, or assignments `x = e` with such an `e` — which may read `x` anywhere, also after
-nested expression lists (the shape of F-C02-1, no longer excluded): every declaratively free
-variable is in the parser's `accessed_non_locals`.
-Not covered by this theorem (covered by the correspondence: evaluator comparison and the
-`accessed_non_locals` comparison against the real parser): assignments nested inside expressions
-and nested function literals (propagation through `add_nested_accessed_non_locals`). -/
-theorem capture_complete_partial (ps : List Capture.Name) (body : List Ex)
-    (h : iteBlock body = true) (x : Capture.Name) (hx : x ∈ freeVars ps body) :
-    x ∈ accessed ps body :=
-  (iteBlock_complete body { assigned := ps } ps h ⟨rfl, rfl, fun _ => Iff.rfl⟩).2 x hx
+/-- **capture_complete_counterexample** (known finding F-C02-8). At full strength the statement is
+still false for the repaired analysis, and this is the only way it fails (`capture_complete_partial`):
+in `x = 1 + (|| x)` — a function literal strictly inside the right-hand side of an assignment to `x`
+that reads `x` — the parser leaves `x` to the deferred self capture (meant for `x = |…| …`), so the
+enclosing function does not record `x`. -/
+theorem capture_complete_counterexample : ¬ CaptureComplete := by
+  intro h
+  have := h [] [.assign 1 (.add (.lit 1) (.fn [] [.var 1]))] 1 (by decide)
+  revert this
+  decide
 
-/-- `y = (if c then a else 3) + f(a)` ⏎ `a = (if c then 1 else 2) + a + y` ⏎ `a`: in the class -/
-example :
-    let body : List Ex := [.assign 5 (.add (.paren (.ite (.var 2) (.var 1) (.lit 3))) (.call 4 [.var 1])),
-                           .assign 1 (.add (.add (.paren (.ite (.var 2) (.lit 1) (.lit 2))) (.var 1)) (.var 5)), .var 1]
-    iteBlock body = true ∧ freeVars [] body = [2, 1, 4] ∧ accessed [] body = [2, 1, 4] := by decide
+/-- **capture_complete_partial.** The general statement for the repaired analysis, for *every*
+parameter list and *every* body of the modelled syntax — assignments anywhere inside expressions
+(reads of the target before, inside and after nested expression lists), inline `if`s, calls, function
+literals nested to any depth with propagation through `add_nested_accessed_non_locals`, recursive
+`x = |…| … x …` — with one explicit exclusion, `okBlock`: a function literal that is not itself the
+right-hand side of the assignment must not have the target of an assignment whose right-hand side it
+stands in among its free names (exactly the shape of `capture_complete_counterexample`).
+Then every declaratively free variable is captured. -/
+theorem capture_complete_partial (ps : List Capture.Name) (body : List Ex)
+    (h : okBlock body = true) (x : Capture.Name) (hx : x ∈ freeVars ps body) :
+    x ∈ accessed ps body :=
+  (peBlock_ok body { assigned := ps } ps h ⟨rfl, fun _ => Iff.rfl⟩ rfl rfl).2 x hx
+
+/-- in the class: `a = (if c then 2 else 3) - a` (F-C02-1), `x + (x = 3)` (F-C02-2), and
+`g = |n| if n < 1 then y else g(n - 1)` ⏎ `y = (y = g(2)) + y` with a nested recursive closure -/
+example : okBlock f27Body = true ∧ okBlock erasedBody = true
+    ∧ okBlock [.assign 7 (.fn [8] [.ite (.lt (.var 8) (.lit 1)) (.var 9) (.call 7 [.sub (.var 8) (.lit 1)])]),
+               .assign 9 (.add (.paren (.assign 9 (.call 7 [.lit 2]))) (.var 9))] = true
+    ∧ freeVars [] [.assign 7 (.fn [8] [.ite (.lt (.var 8) (.lit 1)) (.var 9) (.call 7 [.sub (.var 8) (.lit 1)])]),
+               .assign 9 (.add (.paren (.assign 9 (.call 7 [.lit 2]))) (.var 9))] = [9] := by decide
 
 /-! ## Captured containers and default values -/
 
